@@ -1018,12 +1018,10 @@ def conv_perturb(rng, suf, h):
 
 
 UNPROVED = [
-    'C10_convert_preserves, clauses "get_shape dst h\' = get_shape src h" and "get_zooms dst h\' = cast of the source zooms": '
-    'not proved (FreeSurfer shape hacks, float casts); covered by the correspondence check and the direct predicate only. '
-    'Proved part: C10_convert_preserves_partial (datatype code + every same-named, same-typed field not re-derived)',
-    'C10_fix_idempotent / _noop_on_clean / _clears on header BYTES (check_bytes): proved on decoded field values (check_hdr) of any '
-    'header that fits its layout; the remaining step "the repaired values are in range for their width, hence survive '
-    'encode/decode" is not proved (tested: the repaired bytes are compared on every case)',
+    'C10_convert_preserves for shapes that use the FreeSurfer conventions of NIfTI-1 (large vectors with dim[1] = -1 / glmin, '
+    'ico7 27307x1x6): shape and zooms clauses not proved there; proved for all other shapes (C10_convert_preserves_shape_zooms) '
+    'and fields (C10_convert_preserves_partial); the conventions are covered by the correspondence check and the direct predicate',
+    'C10_convert_preserves with check=True (from_header followed by check_fix) is not stated as a theorem; tested',
     'C10_copy_independent: not stated - header objects are immutable values in the model, so independence of copies is a '
     'property of NumPy buffers; checked on the implementation only (mutating a copy / the original)',
     'C10_bytes_roundtrip for MGH through the class constructor holds only for goodRASFlag <> 0 '
